@@ -76,13 +76,19 @@ def model(rx):
 
 
 def dispatch(ctx):
-    c = ctx.callee
-    for rx, f in MODELS:
-        if rx.search(c):
-            r = f(ctx)
-            if r is not None:
-                ctx.ex.stats['models'][f.__name__] = ctx.ex.stats['models'].get(f.__name__, 0) + 1
-                return r
+    raw = ctx.callee
+    for c in (raw, strip_generics_tail(raw)):
+        ctx.callee = c
+        for rx, f in MODELS:
+            if rx.search(c):
+                r = f(ctx)
+                if r is not None:
+                    ctx.ex.stats['models'][f.__name__] = ctx.ex.stats['models'].get(f.__name__, 0) + 1
+                    ctx.callee = raw
+                    return r
+        if c == strip_generics_tail(raw) and c == raw:
+            break
+    ctx.callee = raw
     return None
 
 
@@ -386,6 +392,11 @@ def m_generic_cmp(ctx):
         return [(None, scalar_cmp(ex, op, a, b))]
     if a == () and b == ():
         return [(None, z3.BoolVal(op in ('eq', 'le', 'ge')))]
+    if op == 'ne' and ex.resolve_fn(ctx.callee, len(ctx.args)) is None:
+        tgt = ex.resolve_fn(ctx.callee[:-2] + 'eq', len(ctx.args))
+        if tgt:
+            ex.push(st, tgt, ctx.args, ctx.dest, ctx.nxt, Cont('not'))
+            return PUSHED
     if op in ('eq', 'ne') and ex.resolve_fn(ctx.callee, len(ctx.args)) is None:
         e = struct_eq(ex, st, a, b)
         if e is not None:
@@ -412,14 +423,27 @@ def struct_eq(ex, st, a, b):
                 return z3.BoolVal(False)
             parts = [struct_eq(ex, st, x, y) for x, y in zip(a.attrs['items'], b.attrs['items'])]
             return None if any(p is None for p in parts) else (z3.And(*parts) if parts else z3.BoolVal(True))
+        if a.kind is None and b.kind is None and a.discr is None and b.discr is None:
+            if not a.fields and not b.fields:
+                return ident(a) == ident(b)      # opaque values: equality abstracted by an identity scalar
+            if set(a.fields) == set(b.fields):
+                parts = [struct_eq(ex, st, a.fields[k], b.fields[k]) for k in a.fields]
+                return None if any(p is None for p in parts) else z3.And(*parts)
+        if isinstance(a.discr, str) and isinstance(b.discr, str) and a.kind is None and b.kind is None:
+            if a.discr != b.discr:
+                return z3.BoolVal(False)
+            ks = set(a.fields) | set(b.fields)
+            if set(a.fields) == set(b.fields):
+                parts = [struct_eq(ex, st, a.fields[k], b.fields[k]) for k in ks]
+                return None if any(p is None for p in parts) else (z3.And(*parts) if parts else z3.BoolVal(True))
         return None
     return None
 
 
 def ident(o, bits=256):
-    """opaque identity scalar for objects compared only by equality"""
+    """opaque identity scalar for objects compared only by equality (shared by structural copies through the lazy-source id)"""
     if 'ident' not in o.attrs:
-        o.attrs['ident'] = z3.BitVec(f'id_{o.id}', bits)
+        o.attrs['ident'] = z3.BitVec(f'id_{o.lz}', bits)
     return o.attrs['ident']
 
 
@@ -611,6 +635,17 @@ def resume(ex, st, cont, rv, work):
 RESUMERS = {}
 
 
+def _resume_take(ex, st, cont, rv, work):
+    r = cont.data['ref']
+    old = ex.read(st, r.loc)
+    ex.write(st, r.loc, rv)
+    return 'value', old
+
+
+RESUMERS['take'] = _resume_take
+RESUMERS['not'] = lambda ex, st, cont, rv, work: ('value', z3.Not(rv))
+
+
 # ---------------------------------------------------------------- conversions / clone / deref
 @model(r'^<.+ as (From|Into)<.+>>::(from|into)$')
 def m_from_into(ctx):
@@ -676,7 +711,12 @@ def m_mem(ctx):
     old = ex.read(st, r.loc)
     if op == 'take':
         m = re.search(r'::<(.+)>$', ctx.callee)
-        ex.write(st, r.loc, default_value(ex, st, m.group(1)))
+        ty = m.group(1)
+        tgt = ex.resolve_fn(f'<{ty} as Default>::default', 0)
+        if tgt:
+            ex.push(st, tgt, [], ctx.dest, ctx.nxt, Cont('take', ref=r))
+            return PUSHED
+        ex.write(st, r.loc, default_value(ex, st, ty))
         return [(None, old)]
     if op == 'replace':
         ex.write(st, r.loc, ctx.args[1]); return [(None, old)]
@@ -738,7 +778,7 @@ def m_report(ctx):
     return [(None, Obj('Report', kind='error'))]
 
 
-@model(r'^std::fmt::Arguments|^core::fmt::Arguments|^core::fmt::rt::|^std::fmt::rt::|^alloc::fmt::format|^std::fmt::format|fmt::Formatter|as (Display|Debug|LowerHex)>::fmt$|^alloc::string::String::|^String::|as ToString>::to_string$|^std::fmt::Write|format::')
+@model(r'^Arguments::|^Argument::|^Formatter::|^std::fmt::Arguments|^core::fmt::Arguments|^core::fmt::rt::|^std::fmt::rt::|^alloc::fmt::format|^std::fmt::format|fmt::Formatter|as (Display|Debug|LowerHex)>::fmt$|^alloc::string::String::|^String::|as ToString>::to_string$|^std::fmt::Write|format::')
 def m_fmt(ctx):
     t = ctx.ret_ty.strip()
     if t == '()':
